@@ -30,6 +30,8 @@ func main() {
 			fail(err)
 		}
 	}
+	ab, _ := json.Marshal(appliedList())
+	os.WriteFile(filepath.Join(*out, "applied.json"), ab, 0644)
 	b, _ := json.MarshalIndent(ov, "", " ")
 	if err := os.WriteFile(*js, b, 0644); err != nil {
 		fail(err)
